@@ -1,28 +1,38 @@
 /-
 C01 — deterministic scheduler over the LTS, used by the driver to replay *controlled schedules*
-(harness leg `sched`): the harness issues one API call at a time and waits for quiescence; `settle`
-runs the internal labels in a fixed priority order until none is enabled. It only ever takes LTS steps
-(`settle_reachable`), so whatever it reaches is covered by the theorems.
+(harness legs `sched` and `park`): the harness issues one API call at a time and waits for quiescence;
+`settle` runs the internal labels in a fixed priority order until none is enabled. It only ever takes
+LTS steps (`settle_reachable`), so whatever it reaches is covered by the theorems.
 -/
 import Otel.C01.Model
 namespace Otel.C01
+
+/-- goroutines parked by the harness at a `verifPoint` hook (build tag `verif`): an `OnEnd` after its `stopped`
+check (before the send), a `ForceFlush` after its `stopped` check (before the marker is sent), `Shutdown` after
+it stored `stopped` (before `stopCh` is closed). A parked goroutine takes no step until it is released. -/
+structure Parked where
+  spans : List Nat := []
+  ffs : List Nat := []
+  sd : Bool := false
+deriving Repr
 
 /-- internal (non-API, non-exporter-return) labels in priority order; blocked senders first (Go hands a
 blocked sender's item over at the moment a receiver frees a slot), oldest first. Where the Go code itself
 chooses at random — a `select` with several ready cases — the variant number `v` picks the preference:
 bit 0: the worker prefers `<-stopCh` over `<-queue` in processQueue; bit 1: a waiting ForceFlush prefers
 `<-stopCh` over `<-flushCh`. The driver accepts an observation that matches any variant. -/
-def internalOrder (v : Nat) (s : St) : List Lbl :=
+def internalOrder (v : Nat) (pk : Parked) (s : St) : List Lbl :=
   let worker : List Lbl := if v % 2 = 1 then [.wStop, .wRecv, .wAppend, .wExportStart, .wDrainEmpty]
                            else [.wRecv, .wAppend, .wExportStart, .wStop, .wDrainEmpty]
   let ffStop : List Lbl := s.ffs.reverse.map fun f => .ffStopWins f.fid
   let ffExp : List Lbl := s.ffs.reverse.map fun f => .ffExportStart f.fid
-  (s.inflight.reverse.map .send) ++
+  ((s.inflight.reverse.filter fun id => !pk.spans.contains id).map .send) ++
   -- a ForceFlush blocked on sending its marker is a blocked sender too: it is served as soon as a slot is free,
   -- before the worker looks at the queue again (in the controlled scripts it always arrived after the blocked producers)
-  (s.ffs.reverse.flatMap fun f => [.ffCheck f.fid, .ffEnqueue f.fid]) ++
+  (s.ffs.reverse.flatMap fun f =>
+    if pk.ffs.contains f.fid then [.ffCheck f.fid] else [.ffCheck f.fid, .ffEnqueue f.fid]) ++
   (if (v / 2) % 2 = 1 then ffStop ++ worker ++ ffExp else worker ++ ffExp ++ ffStop) ++
-  [.sdStore, .sdClose, .sdExporterShutdown, .sdReturnOk]
+  (if pk.sd then [.sdStore] else [.sdStore, .sdClose]) ++ [.sdExporterShutdown, .sdReturnOk]
 
 def firstEnabled (s : St) : List Lbl → Option St
   | [] => none
@@ -30,10 +40,10 @@ def firstEnabled (s : St) : List Lbl → Option St
     | some s' => some s'
     | none => firstEnabled s ls
 
-def settle (v : Nat) : Nat → St → St
+def settle (v : Nat) (pk : Parked) : Nat → St → St
   | 0, s => s
-  | fuel + 1, s => match firstEnabled s (internalOrder v s) with
-    | some s' => settle v fuel s'
+  | fuel + 1, s => match firstEnabled s (internalOrder v pk s) with
+    | some s' => settle v pk fuel s'
     | none => s
 
 theorem firstEnabled_step (s s' : St) (ls : List Lbl) (h : firstEnabled s ls = some s') :
@@ -48,8 +58,8 @@ theorem firstEnabled_step (s s' : St) (ls : List Lbl) (h : firstEnabled s ls = s
       exact ⟨l, hs1⟩
     · exact ih h
 
-theorem settle_reachable {cap maxB : Nat} {blocking : Bool} (v fuel : Nat) (s : St)
-    (h : Reachable cap maxB blocking s) : Reachable cap maxB blocking (settle v fuel s) := by
+theorem settle_reachable {cap maxB : Nat} {blocking : Bool} (v : Nat) (pk : Parked) (fuel : Nat) (s : St)
+    (h : Reachable cap maxB blocking s) : Reachable cap maxB blocking (settle v pk fuel s) := by
   induction fuel generalizing s with
   | zero => exact h
   | succ n ih =>
@@ -66,23 +76,41 @@ inductive Op where
   | gate (ok : Bool)     -- let the exporter call in progress return nil / an error
   | ff (fid : Nat)       -- ForceFlush(ctx) in its own goroutine
   | sd                   -- Shutdown(ctx) in its own goroutine
+  | parkEnd (id : Nat)   -- OnEnd that is parked right after its `stopped` check
+  | releaseEnd (id : Nat)
+  | parkFF (fid : Nat)   -- ForceFlush parked right after its `stopped` check
+  | releaseFF (fid : Nat)
+  | parkSd               -- Shutdown parked right after storing `stopped`
+  | releaseSd
 deriving Repr
 
 /-- apply an API op: take its first label(s) if enabled; the rest happens in `settle` -/
-def applyOp (s : St) : Op → St
-  | .end_ id => match step s (.accept id) with
-    | some s' => s'
-    | none => s                     -- stopped (or id reused): OnEnd returns at once
+def applyOp (ps : Parked × St) : Op → Parked × St
+  | .end_ id => match step ps.2 (.accept id) with
+    | some s' => (ps.1, s')
+    | none => ps                     -- stopped (or id reused): OnEnd returns at once
   | .gate ok =>
-    match s.busy with
-    | some .worker => (step s .exportEnd).getD s
-    | some (.ff fid) => (step s (if ok then .ffExportEndOk fid else .ffExportEndErr fid)).getD s
-    | none => s
-  | .ff fid => (step s (.ffCall fid)).getD s
-  | .sd => (step s .sdCall).getD s
+    match ps.2.busy with
+    | some .worker => (ps.1, (step ps.2 .exportEnd).getD ps.2)
+    | some (.ff fid) => (ps.1, (step ps.2 (if ok then .ffExportEndOk fid else .ffExportEndErr fid)).getD ps.2)
+    | none => ps
+  | .ff fid => (ps.1, (step ps.2 (.ffCall fid)).getD ps.2)
+  | .sd => (ps.1, (step ps.2 .sdCall).getD ps.2)
+  | .parkEnd id => match step ps.2 (.accept id) with
+    | some s' => ({ ps.1 with spans := id :: ps.1.spans }, s')
+    | none => ps                     -- already stopped: returns before the hook, nothing is parked
+  | .releaseEnd id => ({ ps.1 with spans := ps.1.spans.filter (· != id) }, ps.2)
+  | .parkFF fid => match step ps.2 (.ffCall fid) with
+    | some s' => if s'.stopped then (ps.1, s') else ({ ps.1 with ffs := fid :: ps.1.ffs }, s')
+    | none => ps
+  | .releaseFF fid => ({ ps.1 with ffs := ps.1.ffs.filter (· != fid) }, ps.2)
+  | .parkSd => match step ps.2 .sdCall with
+    | some s' => ({ ps.1 with sd := true }, s')
+    | none => ps                     -- not the first Shutdown: sync.Once, nothing is parked
+  | .releaseSd => ({ ps.1 with sd := false }, ps.2)
 
-theorem applyOp_reachable {cap maxB : Nat} {blocking : Bool} (s : St) (op : Op)
-    (h : Reachable cap maxB blocking s) : Reachable cap maxB blocking (applyOp s op) := by
+theorem applyOp_reachable {cap maxB : Nat} {blocking : Bool} (ps : Parked × St) (op : Op)
+    (h : Reachable cap maxB blocking ps.2) : Reachable cap maxB blocking (applyOp ps op).2 := by
   cases op <;> simp only [applyOp]
   case end_ id =>
     split
@@ -90,21 +118,37 @@ theorem applyOp_reachable {cap maxB : Nat} {blocking : Bool} (s : St) (op : Op)
     · exact h
   case gate ok =>
     split
-    · cases hs : step s .exportEnd with
+    · cases hs : step ps.2 .exportEnd with
       | none => simpa [hs] using h
       | some s' => simpa [hs] using Reachable.step _ h hs
     · rename_i fid _
-      cases hs : step s (if ok then .ffExportEndOk fid else .ffExportEndErr fid) with
+      cases hs : step ps.2 (if ok then .ffExportEndOk fid else .ffExportEndErr fid) with
       | none => simpa [hs] using h
       | some s' => simpa [hs] using Reachable.step _ h hs
     · exact h
   case ff fid =>
-    cases hs : step s (.ffCall fid) with
+    cases hs : step ps.2 (.ffCall fid) with
     | none => simpa [hs] using h
     | some s' => simpa [hs] using Reachable.step _ h hs
   case sd =>
-    cases hs : step s .sdCall with
+    cases hs : step ps.2 .sdCall with
     | none => simpa [hs] using h
     | some s' => simpa [hs] using Reachable.step _ h hs
+  case parkEnd id =>
+    split
+    · rename_i s' hs'; exact Reachable.step _ h hs'
+    · exact h
+  case releaseEnd id => exact h
+  case parkFF fid =>
+    split
+    · rename_i s' hs'
+      split <;> exact Reachable.step _ h hs'
+    · exact h
+  case releaseFF fid => exact h
+  case parkSd =>
+    split
+    · rename_i s' hs'; exact Reachable.step _ h hs'
+    · exact h
+  case releaseSd => exact h
 
 end Otel.C01
